@@ -43,6 +43,15 @@ func c07apRC(p string) (string, error) {
 
 func c07apCheck(r *verifkit.Result, c c07apCase) {
 	r.Eval(1)
+	if c.Kind == "iupac" {
+		r.Count("iupac_patterns", 1) // patterns submitted (counted whatever the implementation answers)
+	}
+	// a Go panic / log.Fatal of the pattern code or of the sequence complement is an answer of the tree under test
+	defer func() {
+		if e := recover(); e != nil {
+			r.Violate("ApatPattern.ReverseComplement/panic", fmt.Sprintf("pattern %q: %v", c.Pattern, e), c)
+		}
+	}()
 	got, err := c07apRC(c.Pattern)
 	if err != nil {
 		r.Violate("ApatPattern.ReverseComplement/error", fmt.Sprintf("pattern %q: %v", c.Pattern, err), c)
@@ -61,7 +70,6 @@ func c07apCheck(r *verifkit.Result, c c07apCase) {
 		if !strings.EqualFold(got, viaSeq) {
 			r.Violate("tables/obiapat-vs-obiseq-disagree", fmt.Sprintf("pattern %q: ApatPattern.ReverseComplement gives %q, BioSequence.ReverseComplement gives %q", c.Pattern, got, viaSeq), c)
 		}
-		r.Count("iupac_patterns", 1)
 	}
 	back, err := c07apRC(got)
 	if err != nil {
@@ -76,6 +84,7 @@ func c07apCheck(r *verifkit.Result, c c07apCase) {
 
 func TestVerifC07Apat(t *testing.T) {
 	log.SetOutput(io.Discard)
+	log.StandardLogger().ExitFunc = func(code int) { panic(fmt.Sprintf("log.Fatal (exit status %d)", code)) }
 	r := verifkit.New("C07")
 	defer r.Write()
 	if rc := r.ReplayCase(); rc != nil {
